@@ -126,6 +126,11 @@ def run_env(name, tier, seed):
         for p in ENV_PROPS:
             if p not in getattr(mod, "PROPS", []) and p in getattr(mod, "APPLIES", []):
                 kit.res[p].not_modelled.append(name)
+    # a few (entry, input, output) records of the extracted driver per entry point, attached to every property this
+    # environment contributes to: the check re-evaluates them inside Coq (vm_compute), see check.py xcheck()
+    for p in ENV_PROPS:
+        if kit.res[p].evaluations:
+            kit.res[p].xsamples = {k: v[:1] for k, v in core.XSAMPLES.items()}
     return kit.res
 
 
